@@ -104,9 +104,14 @@ def dispatchToDict (j : Json) : Except String Json := do
     | none => a == b
   let viaDialect := getB j "via_call_dialect"
   let kwImpl := if viaDialect then ToDict.forwardedKw order sOn sBa passed else ToDict.specKw order sOn sBa passed
-  let kwSpec := ToDict.specKw order sOn sBa passed
+  -- the specification side uses the precedence the STATEMENT fixes (keyword > call dialect > Config.dialect >
+  -- Config > default dialect), not the order read from the source on this run
+  let specOrder := ["callDialect", "configDialect", "config", "defaultDialect"]
+  let bSpec : ToDict.Build :=
+    { b with omitNone := ToDict.resolve specOrder sOn, omitDefault := ToDict.resolve specOrder sOd, sba := ToDict.resolve specOrder sBa }
+  let kwSpec := ToDict.specKw specOrder sOn sBa passed
   pure (Json.mkObj [("impl", ofKVs (ToDict.toDictImpl eq b kwImpl fvs)),
-                    ("spec", ofKVs (ToDict.project eq (ToDict.effective b kwSpec) fvs))])
+                    ("spec", ofKVs (ToDict.project eq (ToDict.effective bSpec kwSpec) fvs))])
 
 /-- C07: static argument assembly of the generated constructor call and Python's binding of it -/
 def dispatchArgs (j : Json) : Except String Json := do
